@@ -246,3 +246,28 @@ def sift_signal(max_n=400):
         family_signal(3, max_n, families=FAMILIES),
         elementwise_signal(min_n=6, max_n=min(64, max_n)),
         elementwise_signal(min_n=6, max_n=min(40, max_n), levels=True))
+
+
+# ----------------------------------------------------------------------------
+# memory layouts: same values, different strides
+
+LAYOUTS = ['C', 'C', 'F', 'strided', 'readonly']
+
+
+def relayout(a, mode):
+    """An array equal to ``a`` in shape and values but laid out differently in memory: 'C' contiguous, 'F' column-major
+    (same as C for 1-D), 'strided' (every second element of a larger buffer along axis 0), 'readonly'."""
+    a = np.asarray(a)
+    if mode == 'F':
+        return np.asfortranarray(a)
+    if mode == 'strided':
+        big = np.zeros((2 * a.shape[0],) + a.shape[1:], dtype=a.dtype)
+        big[::2] = a
+        out = big[::2]
+        assert not out.flags['C_CONTIGUOUS'] or a.shape[0] <= 1
+        return out
+    if mode == 'readonly':
+        out = np.array(a, copy=True)
+        out.setflags(write=False)
+        return out
+    return np.ascontiguousarray(a)
